@@ -70,7 +70,7 @@ def random_specs(rng, n):
             if rng.random() < 0.3:
                 v.fields = [Field("u8")]
             vs.append(v)
-        out.append(EnumSpec("R%d" % k, vs, serialize_all=rng.choice([None] + casing.ALL_STYLE_STRINGS), role="random", note="random"))
+        out.append(decorate(rng, EnumSpec("R%d" % k, vs, serialize_all=rng.choice([None] + casing.ALL_STYLE_STRINGS), role="random", note="random"), allow_docs=False, allow_messages=False))
     return out
 
 
